@@ -72,7 +72,7 @@ class OutputsArm(Arm):
     name = "outputs"
     budget = {"quick": 500, "thorough": 8000}
     min_per_shard = 20
-    required_labels = ("form:list", "form:dict", "wildcard", "depth>=1", "depth>=2", "vec", "novec", "multi_node_key",
+    required_labels = ("node_named_like_a_variable", "form:list", "form:dict", "wildcard", "depth>=1", "depth>=2", "vec", "novec", "multi_node_key",
                        "recompiled:other:in_place", "recompiled:same")
 
     def strategy(self, ctx):
@@ -82,6 +82,20 @@ class OutputsArm(Arm):
                                         "max_edges": 5, "expr_depth": 2, "max_alg": 1, "max_in": 2,
                                         "depths": [0, 0, 1, 1, 2], "collision": False}))
             spec = gen.uniquify_init(spec)
+            if all("/" not in p for p, _ in spec["nodes"]) and draw(st.integers(0, 3)) == 0:
+                # node names that are also names of variables of the generated function / of the model
+                pool = ["t", "y", "dy", "hist", "weight", "x", "r", "all_", "in_edge_0"]
+                k = draw(st.integers(1, min(2, len(spec["nodes"]))))
+                new = draw(st.lists(st.sampled_from(pool), min_size=k, max_size=k, unique=True))
+                ren = {spec["nodes"][i][0]: new[i] for i in range(k)}
+                spec["nodes"] = [[ren.get(p, p), nt] for p, nt in spec["nodes"]]
+                for e in spec["edges"]:
+                    for key in ("s", "t"):
+                        head, rest = e[key].split("/", 1)
+                        e[key] = ren.get(head, head) + "/" + rest
+                    for k2, v in list((e.get("xs") or {}).items()):
+                        head, rest = v.split("/", 1)
+                        e["xs"][k2] = ren.get(head, head) + "/" + rest
             rm = RefModel(spec)
             req = draw(request_strategy(spec, rm))
             return {"spec": spec, "req": req,
@@ -113,6 +127,8 @@ class OutputsArm(Arm):
             lab.append("depth>=1")
         if depth >= 2:
             lab.append("depth>=2")
+        if any(p in ("t", "y", "dy", "hist", "weight", "x", "r", "all_", "in_edge_0") for p, _ in spec["nodes"]):
+            lab.append("node_named_like_a_variable")
         requests = req["outputs"]
         items = list(requests.items()) if form == "dict" else [(r, r) for r in requests]
         expected = {}
@@ -132,7 +148,19 @@ class OutputsArm(Arm):
         except HarnessError:
             raise
         except Exception as e:
-            res.rejected = f"model-does-not-run:{type(e).__name__}"
+            # does the model translate at all (no output request involved)?  If it does, it is the look-up of the
+            # requested paths that failed
+            try:
+                from ..model import compile_vf
+                compile_vf(spec, vectorize=cfg["vectorize"])
+            except HarnessError:
+                raise
+            except Exception:
+                res.rejected = f"model-does-not-run:{type(e).__name__}"
+                return res
+            res.violate(exc_bucket("request-raises:single-path", e),
+                        f"get_run_func translates the model, but run() with one full path per output key raised: "
+                        f"{short_exc(e)}; nodes {[p for p, _ in spec['nodes']]}")
             return res
         if not okbase:
             # (shapes of listed C01/C04 findings were excluded above; what is left is a wrong column under the most
